@@ -78,6 +78,14 @@ def replay_chunk(args):
             plats = sorted(byp)
             exp = scen.expected_by_plat(m, sc)
             conf = m.load_configuration(byp, rnd)
+            # a symbolic link inside the root to a member file, and one to a file outside: whatever is
+            # excluded, a link never adds lines (its target is counted, or is not a member)
+            mem = sorted(f for f in m.paths if inside(m, f))
+            outs = sorted(f for f in m.paths if not inside(m, f))
+            if mem:
+                os.symlink(m.paths[rnd.choice(mem)], os.path.join(m.root, "zz_link_in.h"))
+            if outs:
+                os.symlink(m.paths[outs[0]], os.path.join(m.root, "src", "zz_link_out.h"))
             for pats, excluded in exclude_lists(m, sc, rnd):
                 stats["evals"] += 1
                 # does the excluded set provide macros/includes to others?  (non-trivial case)
@@ -130,6 +138,25 @@ def replay_chunk(args):
                                           detail=f"codebasin {' '.join(argv[:-1])}: rc={rc} rows={ {tuple(sorted(k)): v for k, v in got.items()} } "
                                                  f"expected { {tuple(sorted(k)): v for k, v in want.items()} }", case=sc))
                         break
+                # -x together with [codebase] exclude: the union applies, in all three front ends
+                if len(pats) >= 2 and not any(p.startswith("!") for p in pats):
+                    half = os.path.join(base, "half.toml")
+                    open(half, "w").write("[codebase]\nexclude = " + json.dumps(pats[:1]) + "\n\n" + body)
+                    xrest = [a for p in pats[1:] for a in ("-x", p)]
+                    stats["evals"] += 2
+                    rc, out, err = C06.cli("codebasin", ["-R", "summary"] + xrest + [half], m.root)
+                    rows, tot = C06.parse_summary(out)
+                    got = {k: v[0] for k, v in rows.items() if v[0]}
+                    if rc != 0 or got != want:
+                        fails.append(dict(layer="G", tags=sorted(tags | {"cli"}), symptom="cli-exclusion-differs",
+                                          detail=f"codebasin -x {pats[1:]} + toml exclude {pats[:1]}: rows { {tuple(sorted(k)): v for k, v in got.items()} } "
+                                                 f"expected { {tuple(sorted(k)): v for k, v in want.items()} }", case=sc))
+                    r3 = C06.cli("codebasin.tree", xrest + [half], m.root)
+                    r4 = C06.cli("codebasin.tree", [withx], m.root)
+                    if r3[0] != 0 or r3[1] != r4[1]:
+                        fails.append(dict(layer="G", tags=sorted(tags | {"cli"}), symptom="cli-exclusion-differs",
+                                          detail=f"cbi-tree -x {pats[1:]} + toml exclude {pats[:1]} differs from toml exclude {pats}:\n{r3[1][-300:]}\n---\n{r4[1][-300:]}",
+                                          case=sc))
                 # cbi-tree -x vs toml: identical outputs
                 stats["evals"] += 1
                 r1 = C06.cli("codebasin.tree", xargs + [plain], m.root)
@@ -155,6 +182,13 @@ def replay_chunk(args):
                 else:
                     cov = {e["file"]: e for e in json.load(open(covp))}
                     want_files = {rel(m, f) for f in m.paths if inside(m, f) and f not in excluded}
+                    # symbolic links are listed as files iff their target is a (non-excluded) member
+                    for ln in ("zz_link_in.h", os.path.join("src", "zz_link_out.h")):
+                        lp = os.path.join(m.root, ln)
+                        if os.path.islink(lp):
+                            tgt = os.path.realpath(lp)
+                            if tgt in {m.paths[f] for f in m.paths if inside(m, f) and f not in excluded}:
+                                want_files.add(ln)
                     bad = set(cov) != want_files
                     for f in m.paths:
                         if inside(m, f) and f not in excluded and rel(m, f) in cov:
@@ -189,6 +223,8 @@ def run(ctx):
         ctx.model_violation("GenScen_c10", r)
     cases = runner.sharded_tlc(ctx, "GenScen", cfg.format(profile="sim", shard=0, nshards=1), 16, "GenScen_sim",
                                timeout=900, simulate=f"num={20 if q else 300}", depth=40, seed=ctx.seed + 31)
+    cases += runner.sharded_tlc(ctx, "GenScen", cfg.format(profile="c10", shard=0, nshards=1), 16, "GenScen_c10",
+                                timeout=900, simulate=f"num={40 if q else 600}", depth=30, seed=ctx.seed + 33)
     cases = C04.dedup(cases)
     if not cases:
         raise core.MachineryError("no scenarios")
